@@ -127,3 +127,8 @@ dns-routes:
     )?;
     Ok(())
 }
+
+#[cfg(feature = "isomer_erbium_verif")]
+mod isomer_erbium_verif {
+    include!(concat!(env!("ISOMER_ERBIUM_VERIF_DIR"), "/dns_config.rs"));
+}
